@@ -55,7 +55,7 @@ def make_population(rng, i):
     import stix2
     pop = []
     nids = rng.choice([2, 3, 4])
-    kinds = ["sdo21", "sdo20", "custom", "dict", "dict-spellings", "marking", "sco21"]
+    kinds = ["sdo21", "sdo20", "custom", "dict", "dict-spellings", "marking", "sco21", "dict-unversioned"]
     for k in range(nids):
         kind = kinds[(i + k) % len(kinds)] if rng.random() < 0.7 else rng.choice(kinds)
         ver = "2.0" if kind == "sdo20" else "2.1"
@@ -74,6 +74,12 @@ def make_population(rng, i):
             o = {"type": "x-unregistered", "id": g.new_id("x-unregistered"), "created": "2000-01-01T00:00:00.000Z", "name": "n%d" % k, "payload": [1, {"a": "b"}]}
             if rng.random() < 0.5:
                 o["spec_version"] = "2.1"
+        elif kind == "dict-unversioned":
+            # same type as the versioned dictionaries, but without `modified`: one type directory then holds a flat file next
+            # to per-id version directories
+            o = {"type": "x-unregistered", "id": g.new_id("x-unregistered"), "name": "u%d" % k, "payload": []}
+            if rng.random() < 0.5:
+                o["spec_version"] = "2.1"
         elif kind == "marking":
             o = g.make("marking-definition", "min", granular=False)
             if o.get("definition_type") == "tlp" or "definition" not in o:
@@ -85,7 +91,7 @@ def make_population(rng, i):
             t0, u0 = o["id"].split("--", 1)
             o["id"] = t0 + "--" + u0.upper()          # upper-case hex digits are legal in identifiers
             ctx_upper = True
-        versioned = "modified" in o or kind in ("dict", "dict-spellings")
+        versioned = ("modified" in o or kind in ("dict", "dict-spellings")) and kind != "dict-unversioned"
         nver = rng.choice([1, 2, 3, 4]) if versioned else 1
         deltas = [0]
         for _ in range(nver - 1):
@@ -330,6 +336,12 @@ def wl_history(ctx, rng, i):
                     ctx.violation("first-add-refused:" + nm, "%s store refused a first-time addition (%s) of %s modified %s via %s" % (nm, r, j["id"], j.get("modified"), form),
                                   {"store": nm, "object": j, "form": form, "result": r, "history": history})
             ctx.count("adds")
+            if rng.random() < 0.25 and pos < len(order):
+                # reads between additions: what a store answered (or remembered) earlier must not shape what it answers later
+                mid = {"history": list(history), "kinds": dict(kinds), "read": "between additions", "forms": {k_: "+".join(sorted(set(v_))) for k_, v_ in forms_used.items()}}
+                check_store(ctx, "MemoryStore", mem, model, history, mid)
+                check_store(ctx, "FileSystemStore", fs, model, history, mid)
+                ctx.count("mid_history_reads")
         case = {"history": history, "kinds": kinds, "forms": {k: "+".join(sorted(set(v))) for k, v in forms_used.items()}}
         check_store(ctx, "MemoryStore", mem, model, history, case)
         check_store(ctx, "FileSystemStore", fs, model, history, case)
@@ -361,7 +373,7 @@ def wl_history(ctx, rng, i):
 
 
 WORKLOADS = [
-    Workload("history", wl_history, quick=600, thorough=8000),
+    Workload("history", wl_history, quick=600, thorough=40000),
 ]
 
 
